@@ -1,4 +1,5 @@
 import MindsVerif.Model.TS
+import MindsVerif.Gen.TSCfg
 /-! Line protocol driver for the time-series planner model (C15).
 
 plan line : `P <nG> <window> <o><g><h><f> <limit|-> <W|->`
@@ -116,10 +117,10 @@ def handleE : List String → String
 def handle (line : String) : String :=
   match tokens line.trimAscii.toString with
   | pc :: nG :: win :: flags :: lim :: rest =>
-    -- `P`: the pinned tree (`Cfg.pinned`); `P10` / `P01` / `P11`: with fixes/C15_3 (deepValidate) and / or
-    -- fixes/C15_4 (normalizeTF) — used only to try a proposed fix against a patched work tree
+    -- `P`: the variant probed on the live code (`Gen.TSCfg.live`; Props/C15 obliges it to be `Cfg.pinned`);
+    -- `P00` / `P10` / `P01` / `P11`: an explicit variant (deepValidate, normalizeTF), for experiments only
     let cfg? : Option Cfg := match pc with
-      | "P" => some Cfg.pinned | "P10" => some ⟨true, false⟩ | "P01" => some ⟨false, true⟩
+      | "P" => some MindsVerif.Gen.TSCfg.live | "P00" => some ⟨false, false⟩ | "P10" => some ⟨true, false⟩ | "P01" => some ⟨false, true⟩
       | "P11" => some ⟨true, true⟩ | _ => none
     match cfg? with
     | none => handleE (pc :: nG :: win :: flags :: lim :: rest)
